@@ -197,7 +197,9 @@ impl Case {
     }
 
     pub fn execute(&self, program: &Program) -> ExecOutcome {
-        self.execute_with(program, ExecutionOptions::default())
+        // safety net against runaway generated loops: 2^20 cycles (a trace of that length already
+        // takes ~600 MB); a program exceeding it just counts as "execution failed"
+        self.execute_with(program, ExecutionOptions::new(Some(1 << 20), 64, false).expect("options"))
     }
 
     pub fn execute_with(&self, program: &Program, opts: ExecutionOptions) -> ExecOutcome {
